@@ -2,7 +2,8 @@ import BytomModel.Model.SecretConn
 import BytomModel.Drv.Util
 /- driver mode c32: two ends A and B of an established secret connection (toy AEAD).
    reset <A.sendNonce hex> <B.sendNonce hex> | w <side> <datahex> | r <side> <len>
-   | tamper <side> <frame> <offset> <xor> | close <side> | trunc <side> <k> -/
+   | tamper <side> <frame> <offset> <xor> | close <side> | trunc <side> <k>
+   | replay <side> <k> <j> (inbox frame k := j-th frame ever sent to side) | inc2 <nonce hex> -/
 namespace BytomModel.Drv.C32
 open BytomModel.Drv BytomModel.SecretConn
 
@@ -11,6 +12,9 @@ structure St where
   sB : Sender
   rA : Receiver
   rB : Receiver
+  /-- every sealed frame ever delivered to A's / B's inbox (for `replay`) -/
+  hA : Array Bytes := #[]
+  hB : Array Bytes := #[]
 
 def key : Bytes := [7, 1, 3]
 
@@ -39,8 +43,34 @@ def xorAt : Bytes → Nat → UInt8 → Bytes
   | b :: bs, 0, x => (b ^^^ x) :: bs
   | b :: bs, n + 1, x => b :: xorAt bs n x
 
+def framesOf : Nat → Bytes → List Bytes
+  | 0, _ => []
+  | fuel + 1, w => if w.length < sealedFrameSize then [] else w.take sealedFrameSize :: framesOf fuel (w.drop sealedFrameSize)
+
+def pushFrames (h : Array Bytes) (w : Bytes) : Array Bytes := (framesOf w.length w).foldl Array.push h
+
+/-- replace the k-th sealed frame of the inbox by a recorded one -/
+def replaceFrame (wire : Bytes) (k : Nat) (f : Bytes) : Bytes :=
+  wire.take (k * sealedFrameSize) ++ f ++ wire.drop ((k + 1) * sealedFrameSize)
+
 def step (st : St) (line : String) : St × String :=
   match words line with
+  | ["inc2", n] => match parseHex n with
+    | some nn => if nn.length == 24 then (st, toHex (incr2Nonce nn)) else (st, "bad-op")
+    | none => (st, "bad-op")
+  | ["replay", side, k, j] => match k.toNat?, j.toNat? with
+    | some k, some j =>
+      if side == "A" then
+        match st.hA[j]? with
+        | some f => if (k + 1) * sealedFrameSize ≤ st.rA.wire.length then
+            ({ st with rA := { st.rA with wire := replaceFrame st.rA.wire k f } }, "ok") else (st, "bad-op")
+        | none => (st, "bad-op")
+      else
+        match st.hB[j]? with
+        | some f => if (k + 1) * sealedFrameSize ≤ st.rB.wire.length then
+            ({ st with rB := { st.rB with wire := replaceFrame st.rB.wire k f } }, "ok") else (st, "bad-op")
+        | none => (st, "bad-op")
+    | _, _ => (st, "bad-op")
   | ["reset", a, b] => match parseHex a, parseHex b with
     | some nA, some nB => (mk nA nB, "reset")
     | _, _ => (st, "bad-op")
@@ -48,11 +78,11 @@ def step (st : St) (line : String) : St × String :=
     | some data =>
       if side == "A" then
         let (s', res) := write toy key st.sA data
-        ({ st with sA := s', rB := { st.rB with wire := st.rB.wire ++ res.wire } },
+        ({ st with sA := s', rB := { st.rB with wire := st.rB.wire ++ res.wire }, hB := pushFrames st.hB res.wire },
           s!"n={res.n} err={showW res.err} frames={res.wire.length / sealedFrameSize} nonce={toHex s'.nonce}")
       else
         let (s', res) := write toy key st.sB data
-        ({ st with sB := s', rA := { st.rA with wire := st.rA.wire ++ res.wire } },
+        ({ st with sB := s', rA := { st.rA with wire := st.rA.wire ++ res.wire }, hA := pushFrames st.hA res.wire },
           s!"n={res.n} err={showW res.err} frames={res.wire.length / sealedFrameSize} nonce={toHex s'.nonce}")
     | none => (st, "bad-op")
   | ["r", side, l] => match l.toNat? with
